@@ -255,9 +255,12 @@ class MsgGen:
         if k == "inl":
             return {"t": "o", "fs": self.fields(f["fs"])}
         if k == "len":
-            return {"t": "b", "b": self.rnd.choice([[0] * WIDTH[f["ty"]], [0xA5] * WIDTH[f["ty"]]])}
+            # whatever the caller stored: zero or a garbage value whose bytes are all different
+            return {"t": "b", "b": self.rnd.choice([[0] * WIDTH[f["ty"]], [0xA5, 0x17, 0x3C, 0x42, 0x99, 0x06, 0x7E, 0xD1][:WIDTH[f["ty"]]]])}
         if k == "ck":
-            return {"t": "b", "b": self.rnd.choice([[0] * WIDTH[f["ty"]], [0x5A] * WIDTH[f["ty"]]])}
+            # asymmetric bytes: a wrong byte order of an unregistered checksum must be visible
+            return {"t": "b", "b": self.rnd.choice([[0x11, 0x22, 0x33, 0x44, 0x55, 0x66, 0x77, 0x88][:WIDTH[f["ty"]]],
+                                                    [0x5A, 0x01, 0xC3, 0x7F, 0x10, 0xEE, 0x02, 0x9B][:WIDTH[f["ty"]]]])}
         raise ValueError(k)
 
     def field(self, f):
